@@ -1,5 +1,7 @@
 """C21 - pull and push never silently drop history."""
 
+import os
+
 from hypothesis import strategies as st
 
 from vf.api import Kind, check, ok, trivial
@@ -14,31 +16,45 @@ TECHNIQUE = ("Hypothesis-generated revision DAGs and tip pairs on real 2a / "
              "follow-up tip moves")
 RULE = ("history_spec DAG (merges, ghosts) in a source branch; target branch "
         "in its own repository at a generated tip (ancestor, descendant, "
-        "sibling, identical, null, reachable only through a merge); op in "
-        "pull/push with stop revision, overwrite in {False, True, {'history'}, "
-        "{'tags'}}, optional append_revisions_only, optional master the target "
-        "is bound to; then one follow-up tip move (set_last_revision_info, "
-        "generate_revision_history, uncommit). Non-trivial: the two tips are "
+        "sibling, identical, null, reachable only through a merge); a program "
+        "of one or two pull/push operations on the same long-lived branch "
+        "objects (optionally under one outer write lock, the source tip moved "
+        "in between) with stop revision, overwrite in {False, True, "
+        "{'history'}, {'tags'}}, optional append_revisions_only (on the target "
+        "and its master, or on the master only), optional master the target "
+        "is bound to, an empty source; then one follow-up tip move "
+        "(set_last_revision_info, also to null:, generate_revision_history, "
+        "uncommit). Kind remote-target: the same programs with the target "
+        "opened through an in-process smart server (RemoteBranch). "
+        "Non-trivial: the two tips are "
         "neither equal nor null-related and the operation must be refused or "
         "must move through a merge; or append-only forbids the move. Distinct "
         "by case hash.")
 ASSUMPTIONS = [
     "ghost parents are never left-hand parents in generated histories (tips "
     "whose left-hand history hits a ghost have no revno by design)",
-    "local (file) transports only; the smart-server route is compared with "
-    "local behaviour in C32",
+    "an empty source with history overwrite is outside the statement (only the "
+    "revno rule and 'tip is the old tip or null' are asserted there)",
+    "through a smart server the append-only refusal reaches the client as "
+    "UnknownErrorFromSmartServer(('error', 'AppendRevisionsOnlyViolation', ..)) "
+    "(the client has no translation for it); exactly that tuple is accepted "
+    "as the refusal in kind remote-target, the tip rules are the same",
 ]
 LEVEL_TEXT = ("Sampled exploration against an independent model of the pull / "
               "push contract: for each generated pair of tips and option set "
               "the resulting tip, revno, raised error and (for bound targets) "
-              "master tip are compared with the model, and a following tip "
-              "move is checked against the append-only rule.")
-LEVEL_NOTE = ("Histories bounded to 12 revisions; bzr formats 2a and pack-0.92; "
-              "git targets and remote branches are not covered by this check.")
+              "master tip are compared with the model after every operation "
+              "of the program, on the long-lived object and on a fresh one, "
+              "and a following tip move is checked against the append-only "
+              "rule.")
+LEVEL_NOTE = ("Histories bounded to 12 revisions; bzr formats 2a and pack-0.92, "
+              "local and smart-server (RemoteBranch) targets; git targets are "
+              "not covered by this check.")
 REGISTERED = True
 NONTRIVIAL_FLOOR = {"quick": 40, "thorough": 400}
 
-NULL = b"null:"
+NULL = "null:"
+OW = {"no": False, "yes": True, "history": {"history"}, "tags": {"tags"}}
 
 
 def tip_info(path):
@@ -49,12 +65,46 @@ def tip_info(path):
 
 
 def expect_revno(g, tip):
-    return 0 if tip == "null:" else len(gm.lefthand(g, tip))
+    return 0 if tip == NULL else len(gm.lefthand(g, tip))
 
 
-def run(case, env):
+def model(g, T, X, ow, append_only):
+    """-> (expected tip, expected exception class name or None).
+    T: old target tip, X: requested revision (both may be 'null:')."""
+    hist_ow = ow in ("yes", "history")
+    aX = gm.ancestry(g, X) if X != NULL else set()
+    aT = gm.ancestry(g, T) if T != NULL else set()
+    if X == NULL:
+        # nothing is requested: the target contains it already
+        exp, exc = T, None
+    elif hist_ow:
+        exp, exc = X, None
+    elif T == NULL or T in aX:
+        exp, exc = X, None
+    elif X in aT:
+        exp, exc = T, None
+    else:
+        exp, exc = T, "DivergedBranches"
+    if append_only and exp != T and T != NULL and \
+            T not in gm.lefthand(g, exp):
+        exp, exc = T, "AppendRevisionsOnlyViolation"
+    return exp, exc
+
+
+def set_src_tip(src, g, tip):
+    with src.lock_write():
+        if tip is None:
+            src.set_last_revision_info(0, b"null:")
+        else:
+            src.set_last_revision_info(expect_revno(g, tip), bz.enc(tip))
+
+
+def run(case, env, remote=False):
     from breezy import branch as _branch, errors, controldir
     from breezy import uncommit as _uncommit
+    from breezy.bzr import remote as _remote
+    from vcsgraph import errors as _vg_errors
+    import contextlib
     spec = case["spec"]
     g = history.graph_of(spec)
     d = env.newdir()
@@ -62,7 +112,7 @@ def run(case, env):
     src = bz.init_branch(d + "/src", fmt)
     history.build_bb(spec, src)
     stip, ttip = case["stip"], case["ttip"]
-    history.set_tip(src, spec, stip)
+    set_src_tip(src, g, stip)
     tgt = controldir.ControlDir.create_branch_convenience(
         d + "/tgt", format=bz.fmt(fmt), force_new_tree=False)
     if ttip is not None:
@@ -73,99 +123,177 @@ def run(case, env):
     if case["bound"]:
         master = tgt.controldir.sprout(d + "/master").open_branch()
         tgt.bind(master)
-    if case["append_only"]:
+    ao = case["append_only"]          # 0 off, 1 target (+ master), 2 master only
+    if ao == 2 and master is None:
+        ao = 1
+    if ao == 1:
         tgt.get_config_stack().set("append_revisions_only", True)
-        if master is not None:
-            master.get_config_stack().set("append_revisions_only", True)
-    stop = case["stop"]
-    X = stop or stip
-    T = ttip or "null:"
-    ow = case["overwrite"]
-    overwrite = {"no": False, "yes": True, "history": {"history"},
-                 "tags": {"tags"}}[ow]
-    hist_ow = ow in ("yes", "history")
-    aX = gm.ancestry(g, X)
-    aT = gm.ancestry(g, T) if ttip else set()
-    # --- model
-    if hist_ow:
-        exp, expexc = X, None
-    elif ttip is None or T in aX:
-        exp, expexc = X, None
-    elif X in aT:
-        exp, expexc = T, None
-    else:
-        exp, expexc = T, errors.DivergedBranches
-    if case["append_only"] and exp != T and ttip is not None and \
-            T not in gm.lefthand(g, exp):
-        exp, expexc = T, errors.AppendRevisionsOnlyViolation
+    if ao and master is not None:
+        master.get_config_stack().set("append_revisions_only", True)
+    T = ttip or NULL
     src = _branch.Branch.open(d + "/src")
-    tgt = _branch.Branch.open(d + "/tgt")
-    exc = None
-    try:
-        if case["op"] == "pull":
-            tgt.pull(src, overwrite=overwrite,
-                     stop_revision=bz.enc(stop) if stop else None)
-        else:
-            src.push(tgt, overwrite=overwrite,
-                     stop_revision=bz.enc(stop) if stop else None)
-    except (errors.DivergedBranches, errors.AppendRevisionsOnlyViolation) as e:
-        exc = e
-    new = tip_info(d + "/tgt")
-    detail = {"op": case["op"], "T": T, "S": stip, "stop": stop, "ow": ow,
-              "append_only": case["append_only"], "bound": case["bound"],
-              "exp": exp, "expexc": expexc.__name__ if expexc else None,
-              "got": list(new), "exc": repr(exc)[:200]}
-    if expexc is None:
-        check(exc is None, "C21/%s-refused-a-permitted-move" % case["op"], detail)
+    url = None
+    if remote:
+        srv = env.shared["c21-srv"]
+        url = srv.get_url() + os.path.relpath(d + "/tgt", env.root)
+        tgt = _branch.Branch.open(url)
+        check(type(tgt).__name__ == "RemoteBranch", "C21/harness-not-remote",
+              type(tgt).__name__)
     else:
-        check(isinstance(exc, expexc),
-              "C21/%s-%s" % (case["op"],
-                             "diverged-not-refused" if expexc is
-                             errors.DivergedBranches else
-                             "append-only-violated"), detail)
-    check(new[1] == exp, "C21/%s-tip-not-as-specified" % case["op"], detail)
-    check(new[0] == expect_revno(g, exp), "C21/revno-not-lefthand-length",
-          detail)
-    if exp != "null:":
-        tb = _branch.Branch.open(d + "/tgt")
-        check(tb.repository.has_revision(bz.enc(exp)),
-              "C21/tip-revision-not-in-repository", detail)
-    if master is not None:
-        mnew = tip_info(d + "/master")
-        check(mnew[1] == exp and mnew[0] == expect_revno(g, exp),
-              "C21/bound-master-not-in-step", [detail, list(mnew)])
+        tgt = _branch.Branch.open(d + "/tgt")
+    steps = [{"stip": stip, "stop": case["stop"], "op": case["op"],
+              "overwrite": case["overwrite"]}]
+    if case.get("second"):
+        steps.append(case["second"])
+    labels = []
+    deferred = []
+    wrong_error = []
+    with contextlib.ExitStack() as outer:
+        if case.get("locked"):
+            # one outer write lock over the whole program, as the pull / push
+            # commands hold it: the object's caches live across the steps
+            outer.enter_context(tgt.lock_write())
+        for i, step in enumerate(steps):
+            if i:
+                set_src_tip(src, g, step["stip"])
+            stop = step["stop"]
+            X = stop or step["stip"] or NULL
+            ow = step["overwrite"]
+            hist_ow = ow in ("yes", "history")
+            # open finding: a RemoteBranch does not know that it is bound
+            # (get_bound_location() is None), so a push into it never involves
+            # the master - neither its tip nor its append-only setting
+            blind = remote and master is not None and step["op"] == "push"
+            exp, expexc = model(g, T, X, ow, ao == 1 if blind else bool(ao))
+            exc = None
+            try:
+                if step["op"] == "pull":
+                    tgt.pull(src, overwrite=OW[ow],
+                             stop_revision=bz.enc(stop) if stop else None)
+                else:
+                    src.push(tgt, overwrite=OW[ow],
+                             stop_revision=bz.enc(stop) if stop else None)
+            except (errors.DivergedBranches,
+                    errors.AppendRevisionsOnlyViolation) as e:
+                exc = e
+            except _remote.UnknownErrorFromSmartServer as e:
+                # the smart client has no translation for the server's
+                # AppendRevisionsOnlyViolation: the refusal arrives in this
+                # wrapper (the statement names no error class for append-only)
+                if not remote or e.error_tuple[:2] != (
+                        b"error", b"AppendRevisionsOnlyViolation"):
+                    raise
+                exc = errors.AppendRevisionsOnlyViolation(url)
+            except _vg_errors.RevisionNotPresent as e:
+                # open finding: pull into an append-only RemoteBranch that must
+                # be refused: _check_history_violation walks the left-hand
+                # history on the RemoteRepository's graph, which does not know
+                # null: - the refusal surfaces as RevisionNotPresent(null:).
+                # The tip rules are still checked; reported at the end.
+                if not (remote and step["op"] == "pull" and e.revision_id ==
+                        b"null:" and expexc == "AppendRevisionsOnlyViolation"):
+                    raise
+                exc = errors.AppendRevisionsOnlyViolation(url)
+                wrong_error.append([step, T, X])
+            new = tip_info(d + "/tgt")
+            live = tgt.last_revision_info()
+            live = (live[0], live[1].decode())
+            detail = {"step": i, "op": step["op"], "T": T, "S": step["stip"],
+                      "stop": stop, "ow": ow, "append_only": ao,
+                      "bound": case["bound"], "locked": case.get("locked"),
+                      "exp": exp, "expexc": expexc, "got": list(new),
+                      "live": list(live), "exc": repr(exc)[:200]}
+            op = step["op"]
+            if expexc is None:
+                check(exc is None, "C21/%s-refused-a-permitted-move" % op,
+                      detail)
+            else:
+                check(type(exc).__name__ == expexc,
+                      "C21/%s-%s" % (op, "diverged-not-refused"
+                                     if expexc == "DivergedBranches"
+                                     else "append-only-violated"), detail)
+            if X == NULL and hist_ow:
+                # outside the statement: only "nothing else than T or null"
+                check(new[1] in (T, NULL), "C21/%s-tip-not-as-specified" % op,
+                      detail)
+                exp = new[1]
+            check(new[1] == exp, "C21/%s-tip-not-as-specified" % op, detail)
+            check(new[0] == expect_revno(g, exp),
+                  "C21/revno-not-lefthand-length", detail)
+            check(live == new, "C21/long-lived-branch-object-reports-another-tip",
+                  detail)
+            if exp != NULL:
+                tb = _branch.Branch.open(d + "/tgt")
+                check(tb.repository.has_revision(bz.enc(exp)),
+                      "C21/tip-revision-not-in-repository", detail)
+            if master is not None:
+                mnew = tip_info(d + "/master")
+                if blind and mnew[1] != exp:
+                    deferred.append([detail, list(mnew)])
+                else:
+                    check(mnew[1] == exp and mnew[0] == expect_revno(g, exp),
+                          "C21/bound-master-not-in-step", [detail, list(mnew)])
+            # --- non-triviality of this step
+            related = T != NULL and X != NULL and T != X
+            if expexc is not None:
+                labels.append("refused:" + expexc)
+            elif related and exp == X and not hist_ow:
+                merges = any(len([p for p in g[r] if p in g]) > 1
+                             for r in gm.ancestry(g, X) - gm.ancestry(g, T))
+                labels.append("fast-forward-through-merge" if merges
+                              else "fast-forward")
+            elif related and hist_ow and T not in gm.ancestry(g, X):
+                labels.append("overwrite-diverged")
+            elif related and exp == T:
+                labels.append("already-merged")
+            T = exp
+            if deferred:
+                break              # the model of a bound pair ends here
+    exp = T
+    check(not deferred,
+          "C21/push-into-bound-remote-target-leaves-the-master-behind",
+          deferred)
     # --- follow-up tip move under the append-only rule
     fu = case["followup"]
-    if fu is not None and exp != "null:":
+    if fu is not None and exp != NULL:
         kind, R = fu["kind"], fu["rev"]
         tb = _branch.Branch.open(d + "/tgt")
         if master is not None:
             tb.unbind()
         old = exp
-        tb.repository.fetch(_branch.Branch.open(d + "/src").repository,
-                            bz.enc(R))
+        if R is not None:
+            tb.repository.fetch(_branch.Branch.open(d + "/src").repository,
+                                bz.enc(R))
+        if remote:
+            tb = _branch.Branch.open(url)
         exc2 = None
         if kind == "uncommit":
             lh = gm.lefthand(g, old)
-            want = lh[-2] if len(lh) > 1 else "null:"
+            want = lh[-2] if len(lh) > 1 else NULL
         else:
-            want = R
+            want = R or NULL
         try:
             if kind == "set_last_revision_info":
                 with tb.lock_write():
-                    tb.set_last_revision_info(expect_revno(g, R), bz.enc(R))
+                    tb.set_last_revision_info(expect_revno(g, want),
+                                              bz.enc(want))
             elif kind == "generate_revision_history":
                 with tb.lock_write():
-                    tb.generate_revision_history(bz.enc(R))
+                    tb.generate_revision_history(bz.enc(want))
             else:  # uncommit one mainline revision
                 _uncommit.uncommit(tb, revno=None)
         except errors.AppendRevisionsOnlyViolation as e:
             exc2 = e
+        except _remote.UnknownErrorFromSmartServer as e:
+            if not remote or e.error_tuple[:2] != (
+                    b"error", b"AppendRevisionsOnlyViolation"):
+                raise
+            exc2 = e
         new2 = tip_info(d + "/tgt")
         d2 = {"followup": fu, "old": old, "want": want, "got": list(new2),
-              "append_only": case["append_only"], "exc": repr(exc2)[:200]}
-        allowed = (not case["append_only"]) or want == old or (
-            want != "null:" and old in gm.lefthand(g, want))
+              "append_only": ao, "exc": repr(exc2)[:200]}
+        allowed = ao != 1 or want == old or (
+            want != NULL and old in gm.lefthand(g, want))
         if allowed:
             check(exc2 is None, "C21/followup-refused-a-permitted-move", d2)
             check(new2[1] == want and new2[0] == expect_revno(g, want),
@@ -175,19 +303,58 @@ def run(case, env):
                   "C21/append-only-violated-by-" + kind, d2)
             check(new2[1] == old and new2[0] == expect_revno(g, old),
                   "C21/refused-followup-changed-the-tip", d2)
-    # --- non-triviality
-    related = ttip is not None and T != X
-    if expexc is not None:
-        return ok("refused:" + expexc.__name__)
-    if related and exp == X and not hist_ow:
-        merges = any(len([p for p in g[r] if p in g]) > 1
-                     for r in gm.ancestry(g, X) - gm.ancestry(g, T))
-        return ok("fast-forward-through-merge" if merges else "fast-forward")
-    if related and hist_ow and T not in aX:
-        return ok("overwrite-diverged")
-    if related and exp == T:
-        return ok("already-merged")
-    return trivial()
+            labels.append("followup-refused")
+    check(not wrong_error,
+          "C21/append-only-refusal-of-remote-pull-raises-RevisionNotPresent",
+          wrong_error)
+    if not labels:
+        return trivial()
+    for la in labels:
+        if la.startswith("refused:"):
+            return ok(la)
+    return ok(labels[0])
+
+
+def run_remote(case, env):
+    return run(case, env, remote=True)
+
+
+def setup_server(env):
+    from breezy.tests import test_server
+    from breezy import urlutils
+
+    class _Dir:
+        def get_url(self):
+            return urlutils.local_path_to_url(env.root) + "/"
+    srv = test_server.SmartTCPServer_for_testing()
+    srv.start_server(_Dir())
+    env.shared["c21-srv"] = srv
+
+
+def teardown_server(env):
+    srv = env.shared.pop("c21-srv", None)
+    if srv is not None:
+        srv.stop_server()
+
+
+def _target_tip(draw, g, ids, X):
+    """Target tip by relation to the requested revision, so that every class
+    (in particular "diverged") is well represented."""
+    if X is None:
+        return draw(st.sampled_from([None] + ids))
+    aX = gm.ancestry(g, X)
+    cats = {"null": [None], "equal": [X],
+            "ancestor": sorted(aX - {X}),
+            "descendant": sorted(r for r in ids
+                                 if r != X and X in gm.ancestry(g, r)),
+            "diverged": sorted(r for r in ids if r not in aX and
+                               X not in gm.ancestry(g, r))}
+    names = [c for c in ("null", "equal", "ancestor", "descendant", "diverged",
+                         "diverged") if cats[c]]
+    return draw(st.sampled_from(cats[draw(st.sampled_from(names))]))
+
+
+_overwrite = st.sampled_from(["no", "no", "no", "yes", "history", "tags"])
 
 
 @st.composite
@@ -198,39 +365,47 @@ def cases(draw, n_max=10):
     ids = [r["id"] for r in spec["revs"]]
     g = history.graph_of(spec)
     stip = draw(st.sampled_from(ids))
-    stop = draw(st.one_of(st.none(), st.none(),
-                          st.sampled_from(sorted(gm.ancestry(g, stip)))))
-    # target tip by relation to the requested revision, so that every class
-    # (in particular "diverged") is well represented
-    X = stop or stip
-    aX = gm.ancestry(g, X)
-    cats = {"null": [None], "equal": [X],
-            "ancestor": sorted(aX - {X}),
-            "descendant": sorted(r for r in ids
-                                 if r != X and X in gm.ancestry(g, r)),
-            "diverged": sorted(r for r in ids if r not in aX and
-                               X not in gm.ancestry(g, r))}
-    names = [c for c in ("null", "equal", "ancestor", "descendant", "diverged",
-                         "diverged") if cats[c]]
-    ttip = draw(st.sampled_from(cats[draw(st.sampled_from(names))]))
+    if draw(st.integers(0, 24)) == 0:
+        stip = None                    # an empty source branch
+    stop = None if stip is None else draw(st.one_of(
+        st.none(), st.none(), st.sampled_from(sorted(gm.ancestry(g, stip)))))
+    ttip = _target_tip(draw, g, ids, stop or stip)
+    second = None
+    if draw(st.integers(0, 2)) == 0:
+        stip2 = draw(st.sampled_from(ids))
+        second = {"stip": stip2,
+                  "stop": draw(st.one_of(st.none(), st.sampled_from(
+                      sorted(gm.ancestry(g, stip2))))),
+                  "op": draw(st.sampled_from(["pull", "push"])),
+                  "overwrite": draw(_overwrite)}
     fu = None
     if draw(st.booleans()):
         fu = {"kind": draw(st.sampled_from(
             ["set_last_revision_info", "generate_revision_history",
              "uncommit"])), "rev": draw(st.sampled_from(ids))}
+        if fu["kind"] == "set_last_revision_info" and \
+                draw(st.integers(0, 5)) == 0:
+            fu["rev"] = None           # back to null:
+    bound = draw(st.integers(0, 9)) < 2
+    ao = draw(st.integers(0, 9))
     return {"spec": spec, "format": draw(st.sampled_from(["2a", "2a",
                                                           "pack-0.92"])),
             "stip": stip, "ttip": ttip, "stop": stop,
             "op": draw(st.sampled_from(["pull", "push"])),
-            "overwrite": draw(st.sampled_from(["no", "no", "no", "yes",
-                                               "history", "tags"])),
-            "append_only": draw(st.integers(0, 9)) < 3,
-            "bound": draw(st.integers(0, 9)) < 2,
+            "overwrite": draw(_overwrite),
+            "append_only": (1 if ao < 3 else 2 if ao == 3 and bound else 0),
+            "bound": bound,
+            "locked": draw(st.booleans()),
+            "second": second,
             "followup": fu}
 
 
 def kinds(tier):
     return [
         Kind("pull-push", run, strategy=cases(n_max=9 if tier == "quick" else 12),
-             examples={"quick": 480, "thorough": 16000}),
+             examples={"quick": 1040, "thorough": 16000}),
+        Kind("remote-target", run_remote,
+             strategy=cases(n_max=7 if tier == "quick" else 10),
+             examples={"quick": 200, "thorough": 3000},
+             setup=setup_server, teardown=teardown_server),
     ]
